@@ -463,6 +463,12 @@ class Interp:
         if isinstance(obj, types.ModuleType):
             self.ctx.global_overlay[(obj.__name__, name)] = value
             return
+        if isinstance(obj, Closure) and name in ("__name__", "__qualname__", "__doc__"):
+            # renaming a nested function (functools.wraps style) does not change what it computes
+            if not hasattr(obj, "meta"):
+                obj.meta = {}
+            obj.meta[name] = value
+            return
         if isinstance(obj, (SCls, SFmt, Closure, BoundMethod)) or sym.is_sym(obj):
             self.outside(f"setattr on {obj!r}", node)
         # real object: never mutated; overlay instead
